@@ -2,6 +2,7 @@ import Wayfind.Proofs.Reachable
 import Wayfind.Proofs.ParserEq
 import Wayfind.Proofs.Registry6
 import Wayfind.Proofs.ParseNonempty
+import Wayfind.Proofs.Separate
 
 /-! # C04 — a template with optional groups behaves as the set of its expansions
 Router half: a successful `insert t d` acts on the tree exactly like inserting every expansion of `t`, one by one and
@@ -11,6 +12,13 @@ over the stored routes) this is the observable equivalence of the property.
 Expansion half (`C04_expansions_are_the_grammars`): the expansion texts the parser produces are exactly
 `topExpansions` of `Spec/Expand.lean` — every group independently kept (recursively) or dropped, an inner group only
 inside a kept outer one, kept variants first, and only a completely empty result replaced by "/" — in that order.
+The property's own formulation (`C04_equivalent_to_separate_templates`, fourth session): every expansion text of an
+accepted template is itself an accepted, group-free template whose single expansion is that text with the same parts
+(`C04_expansion_is_group_free_template`: its text has no unescaped parenthesis and does not end in a dangling backslash
+that would swallow what is appended, `Proofs/Reparse`), and a successful `insert(t, d)` of a template whose expansions have
+pairwise different parts is observably the insertion, one by one, of these group-free templates with the same data: all
+those inserts succeed, and every search answers identically up to the reporting convention (a match of one of them
+reports the original text `t` and the expansion as `expanded`).
 Status: proved for every history (when two expansions of one template have the same parts, the value stored for that
 route is the one of the later expansion — of the earlier one for a catch-all — see `pick`, Proofs/Registry2). -/
 
@@ -66,3 +74,27 @@ theorem C04_group_keep_or_drop (g rest : Items) :
 /-- two expansions with the same parts (`(/a)(/\a)`: texts `/a` and `/\a`): the route reports the later one -/
 example : pick [Part.stat [47, 97]] [([47, 97], [Part.stat [47, 97]]), ([47, 92, 97], [Part.stat [47, 97]])] =
     some ([47, 92, 97], [Part.stat [47, 97]]) := by decide
+
+/-- an expansion of an accepted template, read as a template of its own, is accepted and group-free: its only expansion is
+its own text, with the same parts -/
+theorem C04_expansion_is_group_free_template (t : Bytes) (ts : List (Bytes × List Part)) (h : parseTemplates t = .ok ts)
+    (e : Bytes × List Part) (he : e ∈ ts) : parseTemplates e.1 = .ok [e] :=
+  reparse_parseTemplates t ts h e he
+
+/-- **the property as stated**: inserting `t` (with optional groups, expansions with pairwise different parts) is
+observably the same as inserting, with the same data, every group-free template obtained by keeping or dropping its
+groups — on any router reached through the API, for every path and constraint environment; a match reports the original
+template text and the matching expansion -/
+theorem C04_equivalent_to_separate_templates (env : Env) (r ra : Router) (L : List LiveT) (h : Live r L) (t : Bytes) (d : Nat)
+    (ts : List (Bytes × List Part)) (hp : parseTemplates t = .ok ts) (hlen : ts.length > 1) (hd : DistinctExps ts)
+    (hi : r.insert t d = .ok ra) :
+    ∃ rb, insertEach d r (ts.map (·.1)) = some rb ∧
+      ∀ path, ra.search env path = (rb.search env path).map (relabel t (ts.map (·.1))) :=
+  insert_eq_separate env h t d ts hp hlen hd hi
+
+/-- non-vacuity: `/v2(/)` on the empty router — the separate inserts of `/v2/` and `/v2` succeed -/
+example : ∃ ra rb, ({} : Router).insert ociRoot 7 = .ok ra ∧ insertEach 7 {} (ociRootExps.map (·.1)) = some rb := by
+  have h0 : Live ({} : Router) [] := ⟨[], [], rfl⟩
+  obtain ⟨ra, hi, _, _⟩ := live_insert_ok h0 ociRoot 7 ociRootExps ociRoot_parse (by decide) (by intro lt h; cases h)
+  obtain ⟨rb, hb, _⟩ := insert_eq_separate envT h0 ociRoot 7 ociRootExps ociRoot_parse (by decide) (by unfold DistinctExps; decide) hi
+  exact ⟨ra, rb, hi, hb⟩
